@@ -519,7 +519,8 @@ fn idiom(rng: &mut Rng, idx: u64) -> (dr::Module, Vec<String>, Vec<(u32, &'stati
                         }
                         _ => {
                             let w = *rng.pick(&[16u32, 32, 64]);
-                            let enc = if vi == 1 { None } else { Some(rspirv::spirv::FPEncoding::Max) };
+                            // (whatever encoding the live enumeration declares: no enumerant is named here, a grammar update renames them)
+                            let enc = if vi == 1 { None } else { [0u32, 1, 2, 4214, 4215, 0x7fff_ffff].iter().find_map(|v| rspirv::spirv::FPEncoding::from_u32(*v)) };
                             let id = b.type_float(w, enc);
                             log.push(format!("type_float({}, {:?}) -> {}", w, enc, id));
                             let mut ops = vec![Operand::LiteralBit32(w)];
